@@ -602,7 +602,38 @@ func EvalX(g *Graph, steps []Step) (travs []*Trav, final Type, unspec string, su
 			pathOK = false
 		case "count":
 			next = []*Trav{{Count: len(travs)}}
-		case "limit", "skip", "range", "distinct":
+		case "distinct":
+			// one traveler per distinct key tuple. Which traveler of a group survives depends
+			// on the (undocumented) row order; the step is only given a reference result
+			// when that choice cannot be seen: all travelers of a group are identical.
+			groups := map[string]string{}
+			for _, t := range travs {
+				for _, f := range distinctFields(s.Args) {
+					if t.readsTainted(f) {
+						return nil, cur, taintedRead, false
+					}
+				}
+				k, ok := DistinctKey(t, s.Args)
+				if !ok {
+					continue
+				}
+				needPath := false
+				for _, later := range steps[i+1:] {
+					if later.Op == "path" {
+						needPath = true
+					}
+				}
+				st := t.stateCanon(needPath)
+				if prev, seen := groups[k]; seen {
+					if prev != st {
+						return nil, cur, "order-sensitive step distinct", false
+					}
+					continue
+				}
+				groups[k] = st
+				next = append(next, t)
+			}
+		case "limit", "skip", "range":
 			return nil, cur, "order-sensitive step " + s.Op, false
 		default:
 			return nil, cur, "step " + s.Op + " has no reference semantics", false
@@ -620,6 +651,54 @@ func EvalX(g *Graph, steps []Step) (travs []*Trav, final Type, unspec string, su
 		}
 	}
 	return travs, ty.Final, "", subsetOnly
+}
+
+func distinctFields(fields []string) []string {
+	if len(fields) == 0 {
+		return []string{"_gid"}
+	}
+	return fields
+}
+
+// DistinctKey is the key tuple distinct() compares; ok=false when a field is absent (the
+// row is dropped by the step).
+func DistinctKey(t *Trav, fields []string) (string, bool) {
+	fields = distinctFields(fields)
+	parts := make([]string, len(fields))
+	for i, f := range fields {
+		v, ok := t.Lookup(f)
+		if !ok {
+			return "", false
+		}
+		parts[i] = Canon(v)
+	}
+	return strings.Join(parts, "\x00"), true
+}
+
+// stateCanon renders everything a later step or the final row can observe of a traveler.
+func (t *Trav) stateCanon(withPath bool) string {
+	el := func(e *Element) interface{} {
+		if e == nil {
+			return nil
+		}
+		taint := SortedKeys(e.Tainted)
+		return []interface{}{e.ID, e.Label, e.From, e.To, e.Edge, e.Data, taint}
+	}
+	marks := map[string]interface{}{}
+	for k, m := range t.Marks {
+		marks[k] = el(m)
+	}
+	sel := map[string]interface{}{}
+	for k, m := range t.Sel {
+		sel[k] = el(m)
+	}
+	var path []interface{}
+	if withPath {
+		for _, p := range t.Path {
+			path = append(path, []interface{}{p.Vertex, p.Edge})
+		}
+	}
+	return Canon([]interface{}{el(t.Cur), marks, path, t.Count, t.Render, sel})
 }
 
 // readsTainted reports whether a field reference reads a property whose value is
